@@ -39,9 +39,82 @@ pub fn err_string(e: &DutErr) -> String {
     format!("{:?}", e)
 }
 
+/// What happened to a display before the calls a check judges: it was built with another
+/// orientation, drew something, and was re-oriented (possibly several times) to the orientation of
+/// the case. The simulated frame memory is wiped afterwards, so the judged calls start from an
+/// untouched panel - but the driver and the controller carry whatever state the history left.
+#[derive(Clone, Debug, PartialEq, Eq, Hash, Serialize, Deserialize)]
+pub struct Hist {
+    pub first: Orient,
+    /// in-bounds drawing calls under `first`
+    pub pre: Vec<DrawOp>,
+    /// orientations set one after the other (each followed by the drawing call of `mid` with the same
+    /// index, if any) before the final one
+    pub via: Vec<Orient>,
+    #[serde(default)]
+    pub mid: Vec<DrawOp>,
+}
+
+#[derive(Clone, Debug, PartialEq, Eq, Hash, Serialize, Deserialize)]
+pub struct HistCase {
+    pub hist: Hist,
+    pub prog: ProgCase,
+}
+
+thread_local! { static PRELUDE: std::cell::RefCell<Option<Hist>> = std::cell::RefCell::new(None); }
+
+/// run `f` with every `Session::start` of this thread preceded by the history
+pub fn with_history<T>(h: &Hist, f: impl FnOnce() -> T) -> T {
+    PRELUDE.with(|p| *p.borrow_mut() = Some(h.clone()));
+    let r = f();
+    PRELUDE.with(|p| *p.borrow_mut() = None);
+    r
+}
+
 impl Session {
     /// build + init; the reference image starts empty (nothing drawn)
     pub fn start(cfg: &Config) -> Result<Session, String> {
+        let hist = PRELUDE.with(|p| p.borrow().clone());
+        let Some(h) = hist else { return Session::start_plain(cfg) };
+        let mut cfg0 = cfg.clone();
+        cfg0.orient = h.first;
+        let mut s = Session::start_plain(&cfg0)?;
+        for op in &h.pre {
+            let pulls = std::cell::Cell::new(0u64);
+            s.dut.run(op, &pulls).map_err(|e| format!("history: {} under {:?} failed: {}", op_name(op), h.first, err_string(&e)))?;
+        }
+        let mut mid = h.mid.iter();
+        for o in h.via.iter().chain(std::iter::once(&cfg.orient)) {
+            s.dut.set_orientation(*o).map_err(|e| format!("history: set_orientation({:?}) failed: {}", o, err_string(&e)))?;
+            if let Some(op) = mid.next() {
+                // drawn under orientation o with coordinates that are in bounds for every orientation
+                let pulls = std::cell::Cell::new(0u64);
+                s.dut.run(op, &pulls).map_err(|e| format!("history: {} under {:?} failed: {}", op_name(op), o, err_string(&e)))?;
+            }
+        }
+        {
+            let mut wb = s.w.borrow_mut();
+            if let Some(e) = wb.panel.take_errors().first() {
+                return Err(format!("history: controller saw malformed traffic: {}", e));
+            }
+            if let Some(e) = wb.decode_errors.first() {
+                return Err(format!("history: bus decode error: {}", e));
+            }
+            if wb.panel.oob_addr != 0 {
+                return Err(format!("history: {} pixel writes addressed memory outside the framebuffer", wb.panel.oob_addr));
+            }
+            wb.panel.take_trace();
+            wb.panel.take_bursts();
+            wb.panel.mem.wipe();
+        }
+        let (lw, lh) = cfg.logical_size(cfg.orient);
+        s.cfg = cfg.clone();
+        s.orient = cfg.orient;
+        s.img = RefImage::new(lw, lh);
+        Ok(s)
+    }
+
+    fn start_plain(cfg: &Config) -> Result<Session, String> {
         let w = new_world(cfg);
         let dut = build(cfg, &w).map_err(|e| format!("init failed: {}", err_string(&e)))?;
         {
